@@ -30,7 +30,8 @@ def FLOORS(tier):
          "export:matrix_to_qubo": 60, "export:qubo_to_matrix": 100, "real-coefficients": 100,
          "raw-repeated-labels": 50, "all-ones-solution": 30, "user-mapping:set_mapping": 60, "user-mapping:set_reverse_mapping": 60,
          "export-before-relabelling": 80, "term-added-after-user-mapping": 40,
-         "second-call-after-result-edited": 300}
+         "second-call-after-result-edited": 300, "convert_solution:flag-independent-of-form": 300,
+         "user-mapping:positional+keywords": 10}
     for fn, (kind, d2) in FREE.items():
         for t in SRC[kind]:
             if d2 and t in ("PUBO", "PCBO", "PUSO", "PCSO", "PUBOMatrix", "PUSOMatrix"):
@@ -145,7 +146,21 @@ def case_method(ctx, rng):
         perm = list(range(len(vs)))
         rng.shuffle(perm)
         if rng.random() < 0.5:
-            M.set_mapping({v: perm[i] for i, v in enumerate(vs)})
+            mp_ = {v: perm[i] for i, v in enumerate(vs)}
+            strs = [v for v in vs if isinstance(v, str) and v.isidentifier()]
+            style = rng.choice(["dict", "pairs", "positional+keywords", "keywords"])
+            if style == "dict" or (style != "pairs" and not strs):
+                M.set_mapping(mp_)
+            elif style == "pairs":
+                M.set_mapping(list(mp_.items()))
+            elif style == "keywords" and len(strs) == len(vs):
+                M.set_mapping(**mp_)
+            else:
+                # documented as dict(*args, **kwargs): one positional mapping plus keyword entries in the same call
+                kw_ = {v: mp_[v] for v in strs[:max(1, len(strs) // 2)]}
+                pos_ = {v: i for v, i in mp_.items() if v not in kw_}
+                M.set_mapping(pos_, **kw_)
+                ctx.cat("user-mapping:positional+keywords")
             ctx.cat("user-mapping:set_mapping")
         else:
             M.set_reverse_mapping({perm[i]: v for i, v in enumerate(vs)})
@@ -219,7 +234,13 @@ def case_method(ctx, rng):
             s = [1 - 2 * b for b in bits] if sform == "spin" else list(bits)
             cont = rng.choice(["list", "tuple", "dict"])
             sol = s if cont == "list" else (tuple(s) if cont == "tuple" else dict(enumerate(s)))
-            ok, x = ctx.call("convert_solution", M.convert_solution, sol, spin=(sform == "spin"), _w=w)
+            flag = sform == "spin"
+            if any(v in (0, -1) for v in s) and rng.random() < 0.3:
+                # documented: the flag only matters for an all-ones solution; otherwise the solution tells its own form
+                flag = rng.choice([True, False])
+                ctx.cat("convert_solution:flag-independent-of-form")
+            ok, x = ctx.call("convert_solution", M.convert_solution, sol, spin=flag, _w=w) if rng.random() < 0.8 or not any(v in (0, -1) for v in s) \
+                else ctx.call("convert_solution", M.convert_solution, sol, _w=w)
             ctx.count("convert_solution-checks")
             if not ok:
                 return
